@@ -50,11 +50,11 @@ var properties = map[string]propSpec{
 	"C04": {Rules: rl{ruleDispatchTotal, ruleAnswers, ruleJoinedGuard, ruleDecoratorForward, ruleModuleCleanup}, Keep: kp{"A1", "B", "J2", "A2", "E3"}},
 	"C05": {Rules: rl{ruleOwnerGuard, ruleAnswers, ruleSenderExcluded, ruleIDGenerator, ruleIDSources}, Keep: kp{"D1", "B5", "J1", "D3", "D2", "D5"}},
 	"C06": {Rules: rl{ruleLeaveComplete, ruleLeaveCallers, ruleModuleCleanup, ruleCascade, ruleDecoratorForward, ruleMutateRelay, ruleSnapshot, ruleSubscriptions, ruleStoreContracts}, Keep: kp{"E1", "E2", "E3", "E4", "E6", "E9", "A2", "C1", "C7", "S-UnsubscribeAll", "S-DeleteByEntity"}},
-	"C07": {Rules: rl{ruleLeaveComplete, ruleLeaveCallers, ruleRegistry, ruleIDGenerator}, Keep: kp{"E1", "E2", "E6", "E7", "D3"}},
-	"C08": {Rules: rl{ruleDecoratorForward, rulePBNil, ruleFunnelOnce, ruleGaugePair, ruleWaitFor, rulePanicContainment, ruleClampSymmetry, ruleTaintAlloc}, Keep: kp{"A2", "G1", "E5", "G5", "G6", "F4", "G2", "G3", "G4"}},
-	"C09": {Rules: rl{ruleGuardedBy, ruleNoEscape, ruleLockOrder, ruleLockPairing, ruleSplitCriticalSection, ruleWaitFor}},
+	"C07": {Rules: rl{ruleLeaveComplete, ruleLeaveCallers, ruleRegistry, ruleIDGenerator, ruleFramePair, ruleAnswers}, Keep: kp{"E1", "E2", "E6", "E7", "D3", "B4", "B1"}, Sites: map[string][]string{"B": {"HandleParticipantJoin"}}},
+	"C08": {Rules: rl{ruleDecoratorForward, rulePBNil, ruleFunnelOnce, ruleGaugePair, ruleWaitFor, rulePanicContainment, ruleClampSymmetry, ruleTaintAlloc, ruleDeferUnlock, ruleFramePair, ruleRelaySync}, Keep: kp{"A2", "G1", "E5", "G5", "G6", "F4", "G2", "G3", "G4", "F6b", "E6", "C6"}},
+	"C09": {Rules: rl{ruleGuardedBy, ruleNoEscape, ruleLockOrder, ruleLockPairing, ruleSplitCriticalSection, ruleWaitFor, ruleDeferUnlock, ruleFramePair}},
 	"C10": {Rules: rl{ruleIDGenerator, ruleStoreContracts, ruleSplitCriticalSection, ruleIDSources, ruleEntityActions, ruleRegistry}, Keep: kp{"D3", "D4", "E8a", "D5", "E7"}},
-	"C11": {Rules: rl{rulePBNil, ruleSnapshot, ruleAnswers, ruleOwnerGuard}, Keep: kp{"G1", "C11-pose", "B5", "B7", "D1"}},
+	"C11": {Rules: rl{rulePBNil, ruleSnapshot, ruleAnswers, ruleOwnerGuard, ruleFramePair, ruleIDGenerator, ruleMutateRelay, ruleFlagWrap}, Keep: kp{"G1", "C11-pose", "B5", "B7", "D1", "E6", "D3", "C1", "C4c"}},
 	"C12": {Rules: rl{ruleStoreContracts, ruleCascade, ruleErrorDiscipline, ruleSplitCriticalSection}, Keep: kp{"S-", "D4", "E4", "ERR", "E8a"}},
 	"C13": {Rules: rl{ruleNotifyGated, ruleSenderExcluded, ruleSubscriptions, ruleLeaveComplete}, Keep: kp{"C5", "C2", "S-", "E1"}},
 	"C14": {Rules: rl{ruleBroadcastShape, ruleSenderExcluded, ruleCustomMessage, ruleRelaySync}, Keep: kp{"C3", "J6", "C2", "H1", "H4", "C6"}},
